@@ -209,7 +209,11 @@ fn eval_path_expr(
         }
         expr::PathExpr::Root => match node {
             dom::XmlNode::Document(_) => vec![node].as_value(),
-            _ => vec![node.owner_document().unwrap().as_node()].as_value(),
+            _ => node
+                .owner_document()
+                .map(|d| vec![d.as_node()])
+                .unwrap_or_default()
+                .as_value(),
         },
     };
 
@@ -295,12 +299,15 @@ fn eval_filtered_loc_expr(
             }
         } else {
             let root = match node {
-                dom::XmlNode::Document(_) => node,
-                _ => node.owner_document().unwrap().as_node(),
+                dom::XmlNode::Document(_) => Some(node),
+                _ => node.owner_document().map(|d| d.as_node()),
             };
-            match op {
-                expr::LocationPathOperator::Current => vec![root],
-                expr::LocationPathOperator::DescendantOrSelfNode => descendant_and_self(root),
+            match (root, op) {
+                (None, _) => vec![],
+                (Some(root), expr::LocationPathOperator::Current) => vec![root],
+                (Some(root), expr::LocationPathOperator::DescendantOrSelfNode) => {
+                    descendant_and_self(root)
+                }
             }
         }
     } else {
